@@ -1,5 +1,7 @@
 //! mlv — correspondence harness between the Coq model (/verif/coq) and the crate in /repo.
 mod c03;
+mod c05n;
+mod c08;
 mod c10;
 mod c11;
 mod c12;
@@ -9,6 +11,7 @@ mod net;
 mod params;
 mod coqfmt;
 mod rng;
+mod scn;
 mod simclock;
 mod univ;
 
@@ -116,12 +119,20 @@ fn main() {
         "c10" | "c05" => {
             let mut o = c10::generate(seed, scale, cmd == "c05");
             if cmd == "c05" {
+                let mut r5 = rng::Rng::new(seed ^ 0x5005);
+                for (cat, term) in c05n::generate(&mut r5, scale) {
+                    o.push(&cat, term);
+                }
                 let n = if args.iter().any(|a| a == "--sweep-big") { 20000 } else { 1500 };
                 let (count, bad) = c10::panic_sweep(seed, n);
                 o.extra.push(("native_panic_sweep".into(), count.to_string()));
                 o.extra.push(("native_panic_sweep_fail".into(), match bad { None => "null".to_string(), Some(b) => format!("\"{}\"", b.iter().map(|x| format!("{:02x}", x)).collect::<String>()) }));
             }
             o.write(&out, cmd, "From MLV Require Import model.Bytes model.Id model.Server model.Bencode model.Krpc model.Check10.", "c10case", "run10", shards);
+        }
+        "c08" | "c17" => {
+            let o = c08::generate(seed, scale, cmd);
+            o.write(&out, cmd, "From MLV Require Import model.Bytes model.PutQuery model.Check08.", "c08case", "run08", shards);
         }
         "c16" => {
             let o = c16::generate(seed, scale);
